@@ -336,7 +336,7 @@ func executeRun(spec *c14sim.RunSpec, pool []*c14sim.Key, recordHot bool) *runOu
 				k := pool[cs.Key]
 				y0 := zzsimrt.TaskYields()
 				sh := shared[cs.Shared]
-				if cs.Form == "reused" {
+				if cs.Form == "reused" || cs.Form == "refilled" {
 					sh = mine
 				}
 				r, mv, again := c14sim.DoCallKeep(k, cs.Form, sh, hooks)
